@@ -31,9 +31,12 @@ enum Op {
     Out(u16, u8),
     Wr(u16, u8),
     Rd(u16),
-    /// 48K only: a minimal SZX snapshot (header + SPCR chunk with this ch7ffd byte) is loaded; the 48K has no
-    /// paging to restore — its map and its deafness to paging writes stay as they are
+    /// a minimal SZX snapshot (header + SPCR chunk with this ch7ffd byte) is loaded: the 48K has no paging to
+    /// restore — its map and its deafness to paging writes stay as they are; on the 128K the byte is restored
+    /// (unlock, then an ordinary latch write) on top of whatever paging history the machine has
     Szx(u8),
+    /// host poke (execute_poke): RAM like a CPU write, below 0x4000 into the ROM page mapped there
+    Poke(u16, u8),
     /// the host supplies a new ROM set (Emulator::load_rom) in the middle of the history: the contents of the
     /// ROM pages change, the map (which page is seen below 0x4000), the latch and the lock do not
     Rom(usize, usize),
@@ -51,6 +54,7 @@ impl Op {
             Op::Wr(a, v) => format!("wr {:04x} {:02x}", a, v),
             Op::Rd(a) => format!("rd {:04x}", a),
             Op::Szx(v) => format!("szx {:02x}", v),
+            Op::Poke(a, v) => format!("poke {:04x} {:02x}", a, v),
             Op::Rom(a, b) => format!("rom {:x} {:x}", a, b),
             Op::Save => "save".into(),
             Op::Tape(ix, n) => format!("tape {:04x} {:x}", ix, n),
@@ -64,6 +68,7 @@ impl Op {
             ["wr", a, v] => Some(Op::Wr(h(a)?, h(v)? as u8)),
             ["rd", a] => Some(Op::Rd(h(a)?)),
             ["szx", v] => Some(Op::Szx(h(v)? as u8)),
+            ["poke", a, v] => Some(Op::Poke(h(a)?, h(v)? as u8)),
             ["rom", a, b] => Some(Op::Rom(h(a)? as usize, h(b)? as usize)),
             ["save"] => Some(Op::Save),
             ["tape", a, n] => Some(Op::Tape(h(a)?, h(n)?)),
@@ -130,16 +135,27 @@ fn apply(m: &mut Machine, ops: &[Op], probes: &[u16], lines: &mut Vec<String>, c
                 lines.push(format!("wr {:04x} {:02x}", a, v));
             }
             Op::Szx(v) => {
-                if !m.m128 {
-                    let mut f = b"ZXST".to_vec();
-                    f.extend_from_slice(&[1, 4, 1, 0]);
-                    f.extend_from_slice(b"SPCR");
-                    f.extend_from_slice(&8u32.to_le_bytes());
-                    f.extend_from_slice(&[0, *v, 0, 0, 0, 0, 0, 0]);
-                    let _ = m.e.load_snapshot(rustzx_core::host::Snapshot::Szx(VAsset::new(f)));
+                let mut f = b"ZXST".to_vec();
+                f.extend_from_slice(&[1, 4, if m.m128 { 2 } else { 1 }, 0]);
+                f.extend_from_slice(b"SPCR");
+                f.extend_from_slice(&8u32.to_le_bytes());
+                f.extend_from_slice(&[0, *v, 0, 0, 0, 0, 0, 0]);
+                let _ = m.e.load_snapshot(rustzx_core::host::Snapshot::Szx(VAsset::new(f)));
+                // 48K: nothing to restore; 128K: the snapshot's latch byte takes effect whatever the lock said before
+                lines.push(format!("restore {:02x}", v));
+            }
+            Op::Poke(a, v) => {
+                struct One([rustzx_core::poke::PokeAction; 1]);
+                impl rustzx_core::poke::Poke for One {
+                    fn actions(&self) -> &[rustzx_core::poke::PokeAction] {
+                        &self.0
+                    }
                 }
-                // the model of the 48K has nothing to do
-                lines.push("pg".into());
+                m.e.execute_poke(One([rustzx_core::poke::PokeAction::mem(*a, *v)]));
+                if *a < 0x4000 {
+                    m.zero_rom = false;
+                }
+                lines.push(format!("poke {:04x} {:02x}", a, v));
             }
             Op::Rom(a, b) => {
                 let m128 = m.m128;
@@ -334,6 +350,7 @@ fn op_class(o: &Op) -> String {
         Op::Wr(a, _) => format!("wr@{:x}", a >> 14),
         Op::Rd(a) => format!("rd@{:x}", a >> 14),
         Op::Szx(_) => "szx-load".into(),
+        Op::Poke(a, _) => format!("poke@{:x}", a >> 14),
         Op::Rom(..) => "host-rom-set".into(),
         Op::Save => "host-sna-save".into(),
         Op::Tape(ix, n) => format!("fast-load{}", if (*ix as u32) < 0x4000 || *ix as u32 + *n as u32 > 0x10000 { "-through-rom" } else { "" }),
@@ -387,6 +404,7 @@ fn random_ops(rng: &mut Rng, n: usize) -> Vec<Op> {
             3 if rng.chance(1, 6) => Op::Szx(rng.u8()),
             4 if rng.chance(1, 5) => Op::Rom(rng.below(200) as usize, rng.below(200) as usize),
             5 if rng.chance(1, 5) => Op::Save,
+            7 if rng.chance(1, 4) => Op::Poke(addr(rng), rng.u8() | 1),
             6 if rng.chance(1, 6) => {
                 let n = rng.range(1, 40) as u16;
                 let ix = match rng.below(4) { 0 => 0x3FF0u16.wrapping_add(rng.below(20) as u16), 1 => 0xFFF0u16.wrapping_add(rng.below(12) as u16), 2 => 0xBFF0 + rng.below(20) as u16, _ => rng.u16() };
@@ -403,7 +421,7 @@ pub fn run(o: &Opts) -> Report {
     rep.rule = "exhaustive part: from every one of the 64 paging states (bank 0-7 x screen x ROM x lock) every one of the \
 256 latch values is written, with marker bytes unique per RAM bank and ROM page; random part: seeded histories (<=40 ops) \
 of paging writes (canonical and partially decoded port addresses), memory writes and reads through all four windows, \
-on both machines, with host-supplied ROM sets (at the start and again in the middle of a history, e.g. while ROM 1 is selected or paging is locked), host SNA saves and tape fast-loads whose range reaches below 0x4000 or wraps past 0xFFFF; after every operation the paging registers and 12 probe addresses are \
+on both machines, with host-supplied ROM sets (at the start and again in the middle of a history, e.g. while ROM 1 is selected or paging is locked), host SNA saves, SZX loads that restore a latch byte on top of the paging history, host pokes (into the mapped ROM page too) and tape fast-loads whose range reaches below 0x4000 or wraps past 0xFFFF; after every operation the paging registers and 12 probe addresses are \
 compared; plus whole-machine lock-step runs of CPU programs made of 16-bit loads/stores/stack operations straddling the window boundaries, with the complete RAM of all banks compared afterwards. distinct/non-trivial = distinct (machine, address, non-zero value read) observations".into();
     let mut model = Model::spawn(&o.model, "C06");
 
